@@ -94,6 +94,11 @@ func c08Gen(rt *rapid.T) wProg {
 		case x < 63:
 			// one request changing a topic-level and a per-user field: two store writes
 			v := gPick(rt, []string{"a", "b", "c"}, "val")
+			if gPct(rt, 50) {
+				// nested objects (a vCard with a photo): an update replaces what is inside an existing one
+				return wOp{K: "set", S: s, T: topicFor(s), A: "desc", H: map[string]any{"public": map[string]any{"fn": "n", "photo": map[string]any{"data": v, "type": "png"}},
+					"private": map[string]any{"c": map[string]any{"k": v}}}}
+			}
 			return wOp{K: "set", S: s, T: topicFor(s), A: "desc", H: map[string]any{"public": map[string]any{"fn": v}, "private": map[string]any{"c": v}}}
 		case x < 68:
 			return wOp{K: "set", S: s, T: topicFor(s), A: "tags", X: gPick(rt, [][]string{{"alpha"}, {"alpha", "beta"}, {}, {"gamma", "Delta "}}, "tags")}
@@ -104,8 +109,14 @@ func c08Gen(rt *rapid.T) wProg {
 			return wOp{K: "note", S: s, T: topicFor(s), A: gPick(rt, []string{"read", "recv"}, "what"), N: gInt(rt, 1, 4, "seq")}
 		case x < 87:
 			return wOp{K: "get", S: s, T: topicFor(s), A: gPick(rt, []string{"desc", "sub", "data", "del", "tags"}, "what")}
-		case x < 89:
+		case x < 88:
 			return wOp{K: "del", S: 0, T: "g0", A: "topic", F: gPct(rt, 50)}
+		case x < 89:
+			// a participant deletes "the topic" of a P2P conversation: the own subscription goes, the peer's stays
+			if u := p.Sess[s]; u <= 1 {
+				return wOp{K: "del", S: s, T: fmt.Sprintf("p%d", 1-u), A: "topic", F: gPct(rt, 50)}
+			}
+			return wOp{K: "del", S: 0, T: "p1", A: "topic"}
 		default:
 			return wOp{K: "pub", S: s, T: topicFor(s)}
 		}
@@ -144,6 +155,18 @@ func c08Gen(rt *rapid.T) wProg {
 			v := gPick(rt, []string{"a", "b", "c"}, "val")
 			p.Ops = append(p.Ops, wOp{K: "fault", N: gInt(rt, 1, 2, "k")},
 				wOp{K: "set", S: s, T: gPick(rt, []string{"g0", "g0", "me"}, "dt"), A: "desc", H: map[string]any{"public": map[string]any{"fn": v}, "private": map[string]any{"c": v}}})
+		case x < 11:
+			// a vCard with a photo is set; the next update of what is inside the photo fails in the store:
+			// the request is refused and the description stays what it was, in memory too
+			s := gInt(rt, 0, len(p.Sess)-1, "s")
+			dt := gPick(rt, []string{"g0", "g0", "me"}, "ndt")
+			if dt == "g0" {
+				s = 0
+			}
+			field := gPick(rt, []string{"public", "public", "private"}, "nfield")
+			p.Ops = append(p.Ops, wOp{K: "sub", S: s, T: dt}, wOp{K: "set", S: s, T: dt, A: "desc", H: map[string]any{field: map[string]any{"fn": "n", "photo": map[string]any{"data": "a", "type": "png"}}}},
+				wOp{K: "fault", N: 1}, wOp{K: "set", S: s, T: dt, A: "desc", H: map[string]any{field: map[string]any{"photo": map[string]any{"data": gPick(rt, []string{"b", "c"}, "nval")}}}},
+				wOp{K: "get", S: s, T: dt, A: "desc"})
 		case x < 13:
 			// P2P with read/received marks and private notes on both sides; one participant unsubscribes,
 			// the topic is unloaded and loaded back by the returning participant (one subscription missing)
@@ -515,6 +538,9 @@ func diffDigest(a, b map[string]string) string {
 }
 
 type c08Obs struct {
+	preLoaded map[string]bool // topics in memory before the step
+	preLive   map[string]*wTopicSnap
+	anyFault  bool // a store failure was delivered earlier in the history
 	preStore *mem.State
 	tolerated map[string]bool
 	known    func(*kit.Viol) bool
@@ -527,6 +553,11 @@ type c08Obs struct {
 func (o *c08Obs) Before(w *wWorld, op *wOp) {
 	o.preStore = mem.A.Snapshot()
 	o.pre = c08StoreDigest(o.preStore)
+	o.preLoaded = map[string]bool{}
+	o.preLive = w.liveTopics()
+	for name := range o.preLive {
+		o.preLoaded[name] = true
+	}
 }
 
 func (o *c08Obs) report(v *kit.Viol) *kit.Viol {
@@ -555,6 +586,11 @@ func opShape(op *wOp) string {
 
 func (o *c08Obs) After(w *wWorld, st *wStep) *kit.Viol {
 	o.steps++
+	defer func() {
+		if st.Fired || st.Crashed {
+			o.anyFault = true
+		}
+	}()
 	switch st.Op.K {
 	case "reload":
 		if st.Reloaded {
@@ -564,6 +600,49 @@ func (o *c08Obs) After(w *wWorld, st *wStep) *kit.Viol {
 		o.features["restart"] = true
 	}
 	c := st.reply()
+	if c != nil && c.Code >= 200 && c.Code < 300 && st.Op.K == "del" && st.Op.A == "topic" && strings.HasPrefix(st.Route, "p2p") && !st.Skipped && st.User >= 0 && o.preStore != nil {
+		// {del what=topic} on a P2P topic by one participant while the other one is still subscribed
+		// removes the requester's subscription only - whether the topic happened to be in memory,
+		// with whichever sessions attached, or not: the peer's subscription and the messages stay
+		u1, u2, _ := types.ParseP2P(st.Route)
+		peer := u1
+		if peer == w.users[st.User].uid {
+			peer = u2
+		}
+		// (judged where the loaded topic, if any, knew both subscriptions as the store does, and no store
+		// failure has left anything half-done: those divergences have their own signatures)
+		agree := !o.anyFault && !st.Fired
+		if lt := o.preLive[st.Route]; lt != nil {
+			for _, u := range []types.Uid{u1, u2} {
+				if pud, ok := lt.PerUser[u]; !ok || pud.deleted {
+					agree = false
+				}
+			}
+		}
+		if _, _, del, ok := wStoreSub(o.preStore, st.Route, w.users[st.User].uid); !ok || del {
+			agree = false
+		}
+		if _, _, del, ok := wStoreSub(o.preStore, st.Route, peer); ok && !del && agree {
+			post := mem.A.Snapshot()
+			if _, _, del2, ok2 := wStoreSub(post, st.Route, peer); !ok2 || del2 {
+				return kit.V("p2p-del-topic-removed-peer-subscription", "%s by user %d removed the subscription of the other participant (user %d), who had not left the P2P topic (topic loaded before the request: %v)", st.Req, st.User, w.userIdx(peer), o.preLoaded[st.Route])
+			}
+			n0, n1 := 0, 0
+			for _, m := range o.preStore.Msgs {
+				if m.Topic == st.Route {
+					n0++
+				}
+			}
+			for _, m := range post.Msgs {
+				if m.Topic == st.Route {
+					n1++
+				}
+			}
+			if n1 < n0 {
+				return kit.V("p2p-del-topic-removed-messages", "%s by user %d removed %d of the %d stored messages although the other participant is still subscribed", st.Req, st.User, n0-n1, n0)
+			}
+		}
+	}
 	if c != nil && c.Code >= 200 && c.Code < 300 {
 		switch st.Op.K {
 		case "pub":
@@ -650,7 +729,18 @@ func (o *c08Obs) After(w *wWorld, st *wStep) *kit.Viol {
 			} else if st.reply() == nil {
 				ack = "unanswered"
 			}
-			v.Sig = "after-fault:" + opShape(&st.Op) + ":" + ack + ":" + v.Sig
+			dir := ""
+			if opShape(&st.Op) == "set-desc" && ack == "refused" && strings.HasPrefix(v.Sig, "diverged:") {
+				// which side moved? A refused {set desc} whose first write got through leaves the STORE ahead of
+				// the cache (the listed two-writes finding); a store which is as it was means the CACHE was
+				// changed by a request that failed - another defect
+				if diffDigest(o.pre, c08StoreDigest(mem.A.Snapshot())) != "" {
+					dir = "store-ahead:"
+				} else {
+					dir = "cache-ahead:"
+				}
+			}
+			v.Sig = "after-fault:" + opShape(&st.Op) + ":" + ack + ":" + dir + v.Sig
 		case st.Op.K == "set" && !st.Skipped && w.sessOK(st.Sess) && w.sess[st.Sess].s.getSub(st.Route) == nil:
 			// {set} from a session that is not attached is served from the store path even when
 			// the topic is loaded (hub.meta -> replyOfflineTopicSetSub)
